@@ -215,6 +215,10 @@ def write_request(draw, p, tags=None):
                 i = draw(st.one_of(st.integers(0, nb - 1), st.sampled_from([0, 31, 32, 33, nb - 1]).filter(lambda x: x < nb)))
                 r["idx"] = [i]
                 r["value"] = draw(st.booleans())
+                if draw(st.integers(0, 4)) == 0:
+                    # a slice of one element takes a one-element list, as for every other array type
+                    r["count"] = 1
+                    r["value"] = [r["value"]] if draw(st.integers(0, 3)) else r["value"]
                 return r
             start = draw(st.integers(0, total - 1)) if form == "range" else 0
             words = draw(st.one_of(st.integers(1, min(total - start, 3)), st.just(total - start)))
